@@ -45,12 +45,25 @@ func intrRegexpCompile(ex *Exec, fn *ssa.Function, a []Value, fr *Frame) Value {
 		o := ex.newObject(nil, StructV{}, "regexp")
 		ex.ghost[fmt.Sprintf("rxsrc:%d", o.ID)] = s
 		p := &Pointer{Obj: o}
-		if isMust {
-			return p
-		}
-		// regexp.Compile may fail on arbitrary bytes: free choice
+		// regexp.Compile may fail on arbitrary bytes: free choice (MustCompile panics then)
 		if ex.branch(ex.freshVar("regexp.Compile.ok", 0)) {
+			if isMust {
+				return p
+			}
 			return TupleV{p, &IfaceV{}}
+		}
+		// the failing outcome is explored for patterns that really do not parse, so that the
+		// counterexample replays: any pattern starting with ')' is a syntax error; the empty pattern
+		// always compiles
+		if s.Arr == nil {
+			panic(pathEnd{"assume-false"})
+		}
+		bad := ex.tb.And(ex.tb.Cmp(OpSle, ex.i64(1), s.Len), ex.tb.Eq(ex.readAt(s.Arr, s.Off), ex.tb.BV(8, ')')))
+		if !ex.branch(bad) {
+			panic(pathEnd{"assume-false"})
+		}
+		if isMust {
+			ex.goPanicf("regexp: Compile of a pattern that does not parse (MustCompile on data)")
 		}
 		return TupleV{&Pointer{}, ex.libError("regexp.syntaxError")}
 	}
